@@ -189,6 +189,13 @@ def run_schedule(ctx, case, chooser=None):
     try:
         wrapped = LogCassette(fail_set(workload))
         cas = A.AsyncRecordOnlyTapeCassette(wrapped, flush_interval=0.1)
+        # the scheduler must own every primitive of the cassette; if the module stops using the names Lock / Event /
+        # Thread the harness can no longer control it: that is a harness error, never a violation
+        for name, val in vars(cas).items():
+            mod = type(val).__module__
+            if mod in ('threading', '_thread') or type(val).__name__ in ('lock', 'RLock', '_RLock'):
+                from pbt.runner import HarnessError
+                raise HarnessError('cannot take control of AsyncRecordOnlyTapeCassette.%s (%r)' % (name, type(val)))
 
         def invariant(s):
             for st_ in s.ts.values():
